@@ -56,7 +56,7 @@ def prop_xml(p, ind="", numeric_refs=False):
         out += _el("value", "[" + ",".join(texts) + "]" if len(texts) > 1 or p.get("bracket_single")
                    else texts[0], i2)
     if p.get("dtype"):
-        out += _el("type", p["dtype"], i2)
+        out += _el("type", p["dtype"][6:] if p["dtype"].startswith("DType.") else p["dtype"], i2)
     for k, v in p.get("attrs", {}).items():
         out += _el(PROP_TAGS[k], _text(v), i2)
     if p.get("id"):
